@@ -20,7 +20,7 @@ CHECKS = {
                      "a Read/ReadMultipleOf may legitimately return fewer bytes than are readable; only ReadAll must return all"],
     ),
     "C12": dict(
-        rule_more='(D) builds its group either with NewAbacoGroup or through a real AbacoSource (Configure with the options, then the sampling step of Start on a scripted packet producer), optionally with a ConfigureAbacoSource request for other options arriving - and being refused - while the sampling step runs.',
+        rule_more='(D) builds its group either with NewAbacoGroup or through a real AbacoSource (Configure with the options, then the sampling step of Start on a scripted packet producer), optionally with a ConfigureAbacoSource request for other options arriving - and being refused - while the sampling step runs. (D) in source mode the options may be sent with the ConfigureAbacoSource request of a real SourceControl after an earlier accepted request (also: every option zero), and a second channel group with inverted channels may be discovered first.',
         pkg=".", hdir="root", test="TestVerif_C12(Demux|Roach)?", ids=["C12", "C12D", "C12R"],
         quick=dict(shards=16, checks=1, per_test={"TestVerif_C12": 150000, "TestVerif_C12Demux": 40000, "TestVerif_C12Roach": 12}, timeout=300),
         thorough=dict(shards=16, checks=1, per_test={"TestVerif_C12": 4000000, "TestVerif_C12Demux": 1000000, "TestVerif_C12Roach": 400}, timeout=5400),
@@ -105,6 +105,7 @@ CHECKS = {
         assumptions=["little-endian host (the decoder reinterprets the payload in place)"],
     ),
     "C05": dict(
+        rule_more='(E) also prepares ROACH and Abaco sources, and a quarter of its STARTs carry a TES map (accepted, or refused with a map error).',
         pkg=".", hdir="root", test="TestVerif_C05E?", ids=["C05", "C05E"],
         quick=dict(shards=16, checks=1, per_test={"TestVerif_C05": 12000, "TestVerif_C05E": 1500}, timeout=400),
         thorough=dict(shards=16, checks=1, per_test={"TestVerif_C05": 240000, "TestVerif_C05E": 30000}, timeout=5400),
@@ -129,7 +130,7 @@ CHECKS = {
                      "sub-frame product frame*divisions+offset stays inside int64"],
     ),
     "C07": dict(
-        rule_more="(A) also with a periodic flush interval of 0.1-2 ms, so that periodic flushes fall between and into the operations; (B) a few cases per shard write LJH3 records as long as the writer's own buffer (32768/40000 samples) mixed with short ones.",
+        rule_more="(A) also with a periodic flush interval of 0.1-2 ms, so that periodic flushes fall between and into the operations; (B) a few cases per shard write LJH3 records as long as the writer's own buffer (32768/40000 samples) mixed with short ones. (B) OFF records of 1000-2000 samples (large header matrices) in one case of twenty.",
         pkg=".", hdir="root", test="TestVerif_C07[ABC]", ids=["C07A", "C07B", "C07C"],
         quick=dict(shards=16, checks=3000, timeout=600),
         thorough=dict(shards=16, checks=75000, timeout=5400),
@@ -171,7 +172,7 @@ CHECKS = {
         assumptions=["record lengths and edge-multi settings respect the documented validity rules", "decimation is never enabled in production code and is excluded"],
     ),
     "C02": dict(
-        rule_more='Also: sample rates whose period is no whole number of nanoseconds (the auto delay counts samples of the true rate); one channel may group-trigger a judged channel (its secondary records are not triggers of its own and must not change which of its own pulses are found).',
+        rule_more='Also: sample rates whose period is no whole number of nanoseconds (the auto delay counts samples of the true rate); one channel may group-trigger a judged channel (its secondary records are not triggers of its own and must not change which of its own pulses are found). A third of the cases send their trigger and record-length requests through the methods of a real SourceControl (stand-in core loop), as a client\'s requests arrive.',
         pkg=".", hdir="root", test="TestVerif_C02", wal=True,
         quick=dict(shards=16, checks=12000, timeout=600),
         thorough=dict(shards=16, checks=240000, timeout=5400),
@@ -211,6 +212,7 @@ CHECKS = {
         assumptions=["edge-multi settings respect the validity rule (zero-threshold needs npre >= 4 and nsamp-npre >= 4; nmonotone <= nsamp-npre)"],
     ),
     "C09": dict(
+        rule_more='A quarter of the pipeline cases contain blocks without samples; (R) histories may end with a restart, after which what clients were last told about the connections must be what the new run uses.',
         pkg=".", hdir="root", test="TestVerif_C09R?", ids=["C09", "C09R"], wal=True,
         quick=dict(shards=16, checks=1, per_test={"TestVerif_C09": 12000, "TestVerif_C09R": 60}, timeout=600),
         thorough=dict(shards=16, checks=1, per_test={"TestVerif_C09": 180000, "TestVerif_C09R": 2500}, timeout=5400),
@@ -231,7 +233,7 @@ CHECKS = {
         assumptions=["no ConfigurePulseLengths or edge-multi inside these histories (covered by C01/C08)"],
     ),
     "C06": dict(
-        rule_more='An earlier run directory of the day may be deleted by hand between sessions (directory numbers with a hole): the next START must still write into a directory that did not exist.',
+        rule_more='An earlier run directory of the day may be deleted by hand between sessions (directory numbers with a hole): the next START must still write into a directory that did not exist. Some sessions publish 400-700 records per channel and block, block after block (the writers\' queues hold 1000 entries and must be emptied as they fill).',
         pkg=".", hdir="root", test="TestVerif_C06", wal=True,
         quick=dict(shards=16, checks=3000, timeout=600),
         thorough=dict(shards=16, checks=36000, timeout=5400),
@@ -252,7 +254,7 @@ CHECKS = {
         assumptions=["projectors are only changed while writing is inactive", "unusable path = parent is a regular file (the sandbox runs as root, permission bits cannot make a path unusable)"],
     ),
     "C20": dict(
-        rule_more="Also: raw-data archive requests (1-1000 samples) being filled while blocks arrive, external-trigger counts given relative to the block's first frame (-30..+15 frames, i.e. also before it), and START requests rejected at the experiment-state file (over-long base path).",
+        rule_more="Also: raw-data archive requests (1-1000 samples) being filled while blocks arrive, external-trigger counts given relative to the block's first frame (-30..+15 frames, i.e. also before it), and START requests rejected at the experiment-state file (over-long base path). A quarter of the cases start from a saved configuration that says the last run was still writing (active, with that session's file names): the run starts idle and leaves those files alone.",
         pkg=".", hdir="root", test="TestVerif_C20", wal=True,
         quick=dict(shards=16, checks=2500, timeout=600),
         thorough=dict(shards=16, checks=75000, timeout=5400),
@@ -272,7 +274,7 @@ CHECKS = {
         assumptions=["labels are non-empty and contain no newline (the RPC layer rejects empty labels)"],
     ),
     "C03": dict(
-        rule_more='Ring mode also uses rings only a few slots larger than the largest batch (reads wrap around the end) and rings that are no whole number of slots.',
+        rule_more='Ring mode also uses rings only a few slots larger than the largest batch (reads wrap around the end) and rings that are no whole number of slots. Packet sequence numbers may start just below 2^32 and wrap during the run; a third of the ring-mode cases run the sampling phase through AbacoRing.samplePackets itself (it ends on its time limit).',
         pkg=".", hdir="root", test="TestVerif_C03", wal=True,
         quick=dict(shards=16, checks=1500, timeout=900),
         thorough=dict(shards=16, checks=32000, timeout=5400),
@@ -296,7 +298,7 @@ CHECKS = {
         assumptions=["packets of one group arrive in sequence order", "equal frames per packet in all groups", "sequence numbers do not wrap around 2^32 within a case"],
     ),
     "C04": dict(
-        rule_more='The active card has number 0-3, with or without an idle card 0 installed.',
+        rule_more='The active card has number 0-3, with or without an idle card 0 installed. One ReleaseBytes call of the run may release and then report a driver error.',
         pkg=".", hdir="root", test="TestVerif_C04", wal=True,
         also=[dict(alias="lancero", pkg="./lancero", hdir="lancero", test="TestVerif_C04A", ids=["C04A"])],
         quick=dict(shards=48, checks=1, per_test={"TestVerif_C04": 40, "TestVerif_C04A": 1500}, timeout=900),
@@ -326,7 +328,7 @@ CHECKS = {
         assumptions=["4-byte word granularity of the stream and of gaps (DMA words)", "card device number 0", "the first 60 reads deliver at least 4 frames (StartRun gives up after 100 empty reads)"],
     ),
     "C19": dict(
-        rule_more='(R) also reads the stored channel-group report ($HOME/.dastard/channels.json) after every Start: valid JSON, equal to the groups of the STATUS message.',
+        rule_more='(R) also reads the stored channel-group report ($HOME/.dastard/channels.json) after every Start: valid JSON, equal to the groups of the STATUS message. (R) every second round sends a ConfigureLanceroSource request while the Start is sampling the card (refused).',
         pkg=".", hdir="root", test="TestVerif_C19R?", ids=["C19", "C19R"], wal=True,
         quick=dict(shards=16, checks=1, per_test={"TestVerif_C19": 6000, "TestVerif_C19R": 25}, timeout=900),
         thorough=dict(shards=16, checks=1, per_test={"TestVerif_C19": 90000, "TestVerif_C19R": 800}, timeout=5400),
@@ -351,7 +353,7 @@ CHECKS = {
         assumptions=["Lancero cards have distinct device numbers (Configure rejects repeats)"],
     ),
     "C16": dict(
-        rule_more="After every injected crash the real setupViper() of cmd/dastard runs on the directory (a child process of that package's own test binary) before the configuration is read; (RPC) sessions may contain a request for all status sent while the updater has a backlog of 40-70 bulky stateless messages: every topic published so far must be sent again.",
+        rule_more="After every injected crash the real setupViper() of cmd/dastard runs on the directory (a child process of that package's own test binary) before the configuration is read; (RPC) sessions may contain a request for all status sent while the updater has a backlog of 40-70 bulky stateless messages: every topic published so far must be sent again. Values include messages of tens of kilobytes (thousands of channels).",
         pkg=".", hdir="root", test="TestVerif_C16(Crash|RPC)?", ids=["C16", "C16CRASH", "C16RPC"], wal=True,
         aux_bins=[dict(alias="cmddastard", pkg="./cmd/dastard", hdir="cmddastard", env="VERIF_C16_MAINBIN")],
         env={"VERIF_NO_GLOBAL_CHANNELS": "1"},
@@ -378,6 +380,7 @@ CHECKS = {
         assumptions=["values are JSON-serialisable (they arrive by JSON-RPC)", "kill = SIGKILL of the process; no power loss (page cache survives)"],
     ),
     "C11": dict(
+        rule_more="A refused trigger or record-length request must leave every channel's configured settings and lengths as they were (read by a closure in the core loop); histories with two edge-multi channels of different tolerance and with projectors on one of two channels; Configure requests for the running source; (W) a source that ends by itself followed by silence across the server's heartbeat period.",
         pkg=".", hdir="root", test="TestVerif_C11[SW]?", ids=["C11", "C11S", "C11W"], wal=True,
         quick=dict(shards=32, checks=1, per_test={"TestVerif_C11": 200, "TestVerif_C11S": 5, "TestVerif_C11W": 40}, timeout=900),
         thorough=dict(shards=32, checks=1, per_test={"TestVerif_C11": 4500, "TestVerif_C11S": 150, "TestVerif_C11W": 1500}, timeout=5400),
@@ -410,7 +413,7 @@ CHECKS = {
         assumptions=["one client: requests do not overlap each other", "no Stop while a Start call is executing"],
     ),
     "C10": dict(
-        rule_more='The scripted Lancero card refuses double starts/stops like the driver and may report an error when the collector is stopped at the end of the first run (the same card must start again); writing may be PAUSEd when the run ends; after a run that ended by itself and before any Stop call writing must already be stopped.',
+        rule_more='The scripted Lancero card refuses double starts/stops like the driver and may report an error when the collector is stopped at the end of the first run (the same card must start again); writing may be PAUSEd when the run ends; after a run that ended by itself and before any Stop call writing must already be stopped. The scripted Lancero card may take 40 ms to stop its adapter: when Stop returns the card must be switched off.',
         pkg=".", hdir="root", test="TestVerif_C10", wal=True,
         quick=dict(shards=32, checks=25, timeout=900),
         thorough=dict(shards=48, checks=1500, timeout=5400),
